@@ -299,6 +299,32 @@ fn exec_inner(op: &str, a: &[Value]) -> Value {
         "clock" => set_clock(a),
         "F" => match name {
             "try_new" => res(Formatter::try_new(a_txt(&a[0])), |_| json!(0)),
+            // [picture, [[type, value] ...]]: ONE Formatter object formats the values in turn; one result per step
+            "session" => {
+                let pic = a_txt(&a[0]);
+                let steps = a[1].as_array().unwrap_or_else(|| panic!("harness: session steps"));
+                match Formatter::try_new(&pic) {
+                    Err(_) => ok(Value::Array(steps.iter().map(|_| json!([1, 0])).collect())),
+                    Ok(f) => {
+                        let mut out = Vec::new();
+                        for st in steps {
+                            let ty = st[0].as_str().unwrap_or_else(|| panic!("harness: session type"));
+                            let mut sink = String::new();
+                            let r = match ty {
+                                "D" => f.format(a_date(&st[1]), &mut sink),
+                                "T" => f.format(a_time(&st[1]), &mut sink),
+                                "TS" => f.format(a_ts(&st[1]), &mut sink),
+                                "YM" => f.format(a_ym(&st[1]), &mut sink),
+                                "DT" => f.format(a_dt(&st[1]), &mut sink),
+                                "OD" => f.format(a_od(&st[1]), &mut sink),
+                                _ => panic!("harness: session type {}", ty),
+                            };
+                            out.push(res(r.map(|_| sink), |t| r_txt(&t)));
+                        }
+                        ok(Value::Array(out))
+                    }
+                }
+            }
             _ => panic!("harness: unknown op {}", op),
         },
         "D" => exec_date(name, a).unwrap_or_else(|| panic!("harness: unknown op {}", op)),
